@@ -37,15 +37,15 @@ type Expr struct {
 	Args []*Expr
 }
 
-func Num(text string) *Expr            { return &Expr{K: ENum, Text: text} }
-func Bool(b bool) *Expr                { return &Expr{K: EBool, B: b} }
-func Str(s string) *Expr               { return &Expr{K: EStr, Text: s} }
-func Var(name string) *Expr            { return &Expr{K: EVar, Text: name} }
-func Call(f string, a ...*Expr) *Expr  { return &Expr{K: ECall, Text: f, Args: a} }
-func Neg(e *Expr) *Expr                { return &Expr{K: ENeg, Args: []*Expr{e}} }
-func Not(e *Expr) *Expr                { return &Expr{K: ENot, Args: []*Expr{e}} }
-func Bin(op string, l, r *Expr) *Expr  { return &Expr{K: EBin, Text: op, Args: []*Expr{l, r}} }
-func Null() *Expr                      { return &Expr{K: ENull} }
+func Num(text string) *Expr           { return &Expr{K: ENum, Text: text} }
+func Bool(b bool) *Expr               { return &Expr{K: EBool, B: b} }
+func Str(s string) *Expr              { return &Expr{K: EStr, Text: s} }
+func Var(name string) *Expr           { return &Expr{K: EVar, Text: name} }
+func Call(f string, a ...*Expr) *Expr { return &Expr{K: ECall, Text: f, Args: a} }
+func Neg(e *Expr) *Expr               { return &Expr{K: ENeg, Args: []*Expr{e}} }
+func Not(e *Expr) *Expr               { return &Expr{K: ENot, Args: []*Expr{e}} }
+func Bin(op string, l, r *Expr) *Expr { return &Expr{K: EBin, Text: op, Args: []*Expr{l, r}} }
+func Null() *Expr                     { return &Expr{K: ENull} }
 
 // Prec is the grammar's precedence level of an operator (higher binds tighter).
 func Prec(op string) int {
